@@ -55,18 +55,43 @@ confirmed = meta.get('compiles_and_suite_passes_with_change') and meta.get('demo
 meta['confirmed'] = bool(confirmed)
 print(json.dumps(meta, indent=1))
 if confirmed:
-    rc, o = sh(f'git -C /repo apply {patch}')
-    assert rc == 0, o
-    try:
-        t0 = time.time()
-        rc, o = sh(f'./check {prop} --tier quick --no-evidence ' + ' '.join(shlex.quote(x) for x in extra), cwd='/verif', timeout=7200)
-        meta['check_cmd'] = f'./check {prop} --tier quick ' + ' '.join(extra)
-        meta['check_exit'] = rc
-        meta['check_wall_s'] = round(time.time() - t0)
-        meta['check_lines'] = [l for l in o.splitlines() if l.startswith(('VIOLATION', 'KNOWN-FINDING', 'MACHINERY', prop)) or 'FAILED' in l][:12]
-        meta['detected'] = rc == 1 and any(l.startswith('VIOLATION') for l in o.splitlines())
-    finally:
-        sh('git -C /repo checkout -- .')
+    if os.environ.get('EVAL_IN_REPO') == '1':
+        rc, o = sh(f'git -C /repo apply {patch}')
+        assert rc == 0, o
+        try:
+            t0 = time.time()
+            rc, o = sh(f'./check {prop} --tier quick --no-evidence ' + ' '.join(shlex.quote(x) for x in extra), cwd='/verif', timeout=7200)
+            meta['check_cmd'] = f'git -C /repo apply patch.diff; ./check {prop} --tier quick ' + ' '.join(extra) + '; git -C /repo checkout -- .'
+        finally:
+            sh('git -C /repo checkout -- .')
+    else:
+        # same check, same harness sources, but the path dependency of a scratch copy of the harness crate points at a patched scratch
+        # worktree, so that /repo itself stays untouched while other checks are running
+        sh(f'git -C /repo worktree remove --force {WT}')
+        rc, o = sh(f'git -C /repo worktree add --detach {WT} HEAD')
+        assert rc == 0, o
+        HD = f'/tmp/evalh-{prop}-{label}'
+        try:
+            rc, o = sh(f'git apply {patch}', cwd=WT)
+            assert rc == 0, o
+            shutil.rmtree(HD, ignore_errors=True)
+            shutil.copytree('/verif/harness', HD, ignore=shutil.ignore_patterns('target'))
+            ct = open(f'{HD}/Cargo.toml').read().replace('path = "/repo"', f'path = "{WT}"')
+            open(f'{HD}/Cargo.toml', 'w').write(ct)
+            t0 = time.time()
+            envs = f'VERIF_HARNESS_DIR={HD} VERIF_WORK=/tmp/evalwork-{prop}-{label} '
+            rc, o = sh(envs + f'./check {prop} --tier quick --no-evidence ' + ' '.join(shlex.quote(x) for x in extra), cwd='/verif', timeout=10800)
+            meta['check_cmd'] = (f'(scratch worktree with patch.diff applied; copy of /verif/harness with its bnum path dependency pointed at it) '
+                                 f'./check {prop} --tier quick ' + ' '.join(extra))
+        finally:
+            sh(f'git -C /repo worktree remove --force {WT}')
+            shutil.rmtree(WT, ignore_errors=True)
+            shutil.rmtree(HD, ignore_errors=True)
+            shutil.rmtree(f'/tmp/evalwork-{prop}-{label}', ignore_errors=True)
+    meta['check_exit'] = rc
+    meta['check_wall_s'] = round(time.time() - t0)
+    meta['check_lines'] = [l for l in o.splitlines() if l.startswith(('VIOLATION', 'KNOWN-FINDING', 'MACHINERY', prop)) or 'FAILED' in l][:12]
+    meta['detected'] = rc == 1 and any(l.startswith('VIOLATION') for l in o.splitlines())
     print('\n'.join(meta['check_lines']))
 shutil.copy(patch, out)
 shutil.copy(os.path.join(src, 'demo.rs'), out)
